@@ -143,3 +143,28 @@ Definition funksvd_agree (p : params float_arith) (nfeat nusers nitems : nat)
     (smps : list (nat * nat * float * float)) (uobs iobs : list (list float)) : bool :=
   let r := train float_arith p nfeat nusers nitems smps in
   arr2_same (fst r) uobs && arr2_same (snd r) iobs.
+
+(* ---- the seeded sample order ----
+   FunkSVDScorer.train visits the observed ratings in the order `stored[order[0]], stored[order[1]], ...`, where
+   `stored` is the rating matrix in its stored (COO) order and `order` is the shuffle of 0..n-1 drawn from the
+   generator the seed stands for -- whichever way the seed reaches the training: TrainingOptions(rng = integer /
+   integer sequence / SeedSequence / Generator / BitGenerator), or no rng in the options and a generator installed
+   with lenskit.random.set_global_rng beforehand.  The draw itself is NumPy's (trusted); the harness repeats it on a
+   generator equal to the one the training is given and hands the indices over. *)
+Definition in_order {A : Type} (d : A) (stored : list A) (order : list nat) : list A :=
+  map (fun j => nth j stored d) order.
+(* `order` has n entries and every index below n occurs in it (hence exactly once) *)
+Definition is_order (n : nat) (order : list nat) : bool :=
+  Nat.eqb (length order) n && forallb (fun j => existsb (Nat.eqb j) order) (seq 0 n).
+
+(* a check `agree` made on the stored samples visited in the seeded order *)
+Definition seeded_ok {A : Type} (d : A) (agree : list A -> bool) (stored : list A) (order : list nat) : bool :=
+  is_order (length stored) order && agree (in_order d stored order).
+
+Definition no_sample : nat * nat * float * float := (O, O, PrimFloat.zero, PrimFloat.zero).
+(* the features are those of the float run over the stored samples visited in the seeded order *)
+Definition funksvd_seeded_agree (p : params float_arith) (nfeat nusers nitems : nat)
+    (stored : list (nat * nat * float * float)) (order : list nat) (uobs iobs : list (list float)) : bool :=
+  seeded_ok no_sample (fun smps => funksvd_agree p nfeat nusers nitems smps uobs iobs) stored order.
+(* a second training from an equal seed source gave the same features, bit for bit *)
+Definition same_features (u i u' i' : list (list float)) : bool := arr2_same u u' && arr2_same i i'.
